@@ -612,6 +612,7 @@ type plainWriter struct{ b *bytes.Buffer }
 func (p plainWriter) Write(x []byte) (int, error) { return p.b.Write(x) }
 
 type item struct {
+	msg    *wmsg  // the message, for the concurrent-writers scenario
 	kind   string // req resp pkt
 	wop    string // driver op line for the writer / spec
 	wire   []byte // what the real writer produced
@@ -670,7 +671,7 @@ func genReqItem(c *Ctx) item {
 			urlOK = true
 		}
 	}
-	return item{kind: "req", wire: buf.Bytes(), werr: werr, urlOK: urlOK, rurl: ustr,
+	return item{msg: &wmsg{kind: "req", method: method, ustr: ustr, h: h, body: body}, kind: "req", wire: buf.Bytes(), werr: werr, urlOK: urlOK, rurl: ustr,
 		wop:    fmt.Sprintf("c14 wreq %s %s %s %s %s", B01(urlOK), Hx([]byte(method)), Hx([]byte(ustr)), hdrArg(h), Hx(body)),
 		detail: fmt.Sprintf("%s %s hdr=%d body=%d", method, ustr, len(h), len(body))}
 }
@@ -708,7 +709,7 @@ func genRespItem(c *Ctx) item {
 	} else {
 		werr = safeWrite(func() error { return resp.Write(&buf) })
 	}
-	return item{kind: "resp", wire: buf.Bytes(), werr: werr,
+	return item{msg: &wmsg{kind: "resp", code: code, status: status, h: h, body: body}, kind: "resp", wire: buf.Bytes(), werr: werr,
 		wop:    fmt.Sprintf("c14 wresp %d %s %s %s", code, Hx([]byte(status)), hdrArg(h), Hx(body)),
 		detail: fmt.Sprintf("%d %q hdr=%d body=%d", code, status, len(h), len(body))}
 }
@@ -809,7 +810,7 @@ func genPktItem(c *Ctx, chans []int) item {
 	p := &rtp.Packet{Channel: byte(idx), Data: data}
 	var buf bytes.Buffer
 	werr := safeWrite(func() error { return p.Write(&buf, chans) })
-	return item{kind: "pkt", wire: buf.Bytes(), werr: werr, chans: chans,
+	return item{msg: &wmsg{kind: "pkt", code: idx, body: data, chans: chans}, kind: "pkt", wire: buf.Bytes(), werr: werr, chans: chans,
 		wop:    fmt.Sprintf("c14 wpkt %s %s %d %s", B01(ok), intsCSV(chans), idx, Hx(data)),
 		detail: fmt.Sprintf("ch=%d len=%d rtpok=%v table=%v", idx, len(data), ok, chans)}
 }
@@ -819,6 +820,246 @@ func min(a, b int) int {
 		return a
 	}
 	return b
+}
+
+// ---------------------------------------------------------------- writers running concurrently
+//
+// The server serialises messages for many sessions at once.  What a writer emits must depend
+// on its own message only: a writer that is suspended inside a socket write while another
+// message is serialised must still emit exactly the bytes it emits when it runs alone.
+// The interleaving is forced, not slept: writer A runs in its own goroutine into a writer
+// that blocks before its n-th Write call; while A is parked there, B is written completely;
+// then A is released.  Both outputs are compared with what the same message gives when
+// written alone (which the sequential cases compare with the model and the specification).
+
+type wmsg struct {
+	kind   string // req resp pkt
+	method string
+	ustr   string
+	code   int // status code, or the channel type of a pkt
+	status string
+	h      []hdrKV
+	body   []byte
+	chans  []int
+}
+
+func (m *wmsg) token() string {
+	switch m.kind {
+	case "req":
+		return fmt.Sprintf("req/%s/%s/%s/%s", Hx([]byte(m.method)), Hx([]byte(m.ustr)), hdrArg(m.h), Hx(m.body))
+	case "resp":
+		return fmt.Sprintf("resp/%d/%s/%s/%s", m.code, Hx([]byte(m.status)), hdrArg(m.h), Hx(m.body))
+	}
+	return fmt.Sprintf("pkt/%d/%s/%s", m.code, intsCSV(m.chans), Hx(m.body))
+}
+
+func parseHdrArg(s string) []hdrKV {
+	if s == "-" {
+		return nil
+	}
+	var out []hdrKV
+	for _, f := range strings.Split(s, ";") {
+		i := strings.IndexByte(f, '=')
+		if i < 0 {
+			continue
+		}
+		kv := hdrKV{k: string(Unhx(f[:i]))}
+		if f[i+1:] != "" {
+			for _, v := range strings.Split(f[i+1:], "|") {
+				kv.vs = append(kv.vs, string(Unhx(v)))
+			}
+		}
+		out = append(out, kv)
+	}
+	return out
+}
+
+func parseWmsg(tok string) *wmsg {
+	f := strings.Split(tok, "/")
+	switch {
+	case f[0] == "req" && len(f) == 5:
+		return &wmsg{kind: "req", method: string(Unhx(f[1])), ustr: string(Unhx(f[2])), h: parseHdrArg(f[3]), body: Unhx(f[4])}
+	case f[0] == "resp" && len(f) == 5:
+		c, _ := strconv.Atoi(f[1])
+		return &wmsg{kind: "resp", code: c, status: string(Unhx(f[2])), h: parseHdrArg(f[3]), body: Unhx(f[4])}
+	case f[0] == "pkt" && len(f) == 4:
+		c, _ := strconv.Atoi(f[1])
+		return &wmsg{kind: "pkt", code: c, chans: parseIntsCSV(f[2]), body: Unhx(f[3])}
+	}
+	return nil
+}
+
+// write serialises a fresh copy of the message (Request.Write / Response.Write update the header map)
+func (m *wmsg) write(w io.Writer) error {
+	switch m.kind {
+	case "req":
+		u, err := url.Parse(m.ustr)
+		if err != nil {
+			u = &url.URL{Scheme: "rtsp", Host: "h", Path: "/p"}
+		}
+		return (&rtsp.Request{Method: m.method, URL: u, Proto: "RTSP/1.0", Header: mkHeader(m.h), Body: string(m.body)}).Write(w)
+	case "resp":
+		return (&rtsp.Response{StatusCode: m.code, Status: m.status, Header: mkHeader(m.h), Body: string(m.body)}).Write(w)
+	}
+	return (&rtp.Packet{Channel: byte(m.code), Data: m.body}).Write(w, m.chans)
+}
+
+// gateWriter parks its caller before the gate-th Write call until released
+type gateWriter struct {
+	buf     bytes.Buffer
+	calls   int
+	gate    int
+	reached chan struct{}
+	release chan struct{}
+}
+
+func (g *gateWriter) Write(p []byte) (int, error) {
+	if g.calls == g.gate {
+		close(g.reached)
+		<-g.release
+	}
+	g.calls++
+	return g.buf.Write(p)
+}
+
+type concOut struct {
+	a, b       string // what the two writers emitted: hex | error | panic:… | hang
+	aSeq, bSeq string // what they emit alone
+	parked     bool   // A really was suspended inside its message while B was written
+}
+
+func writeAlone(m *wmsg) string {
+	var buf bytes.Buffer
+	if e := safeWrite1(func() error { return m.write(plainWriter{&buf}) }); e != "" {
+		return e
+	}
+	return Hx(buf.Bytes())
+}
+
+func runConc(a, b *wmsg, gate int) (o concOut) {
+	o.aSeq, o.bSeq = writeAlone(a), writeAlone(b)
+	g := &gateWriter{gate: gate, reached: make(chan struct{}), release: make(chan struct{})}
+	done := make(chan string, 1)
+	go func() {
+		e := safeWrite1(func() error { return a.write(g) })
+		done <- e
+	}()
+	finish := func(e string) {
+		if e != "" {
+			o.a = e
+		} else {
+			o.a = Hx(g.buf.Bytes())
+		}
+	}
+	wait := func(ch <-chan struct{}) (e string, reached, hung bool) {
+		t := time.NewTimer(callBudget + callLongBudget)
+		defer t.Stop()
+		select {
+		case <-ch:
+			return "", true, false
+		case e := <-done:
+			return e, false, false
+		case <-t.C:
+			return "", false, true
+		}
+	}
+	e, reached, hung := wait(g.reached)
+	if hung {
+		o.a, o.b = "hang", "-"
+		return
+	}
+	if !reached { // A was through before its gate-th write: nothing interleaves
+		finish(e)
+		o.b = writeAlone(b)
+		return
+	}
+	o.parked = true
+	o.b = writeAlone(b)
+	close(g.release)
+	e, _, hung = wait(nil)
+	if hung {
+		o.a = "hang"
+		return
+	}
+	finish(e)
+	return
+}
+
+func concLine(a, b *wmsg, gate int) string {
+	return fmt.Sprintf("c14 conc %d %s %s", gate, a.token(), b.token())
+}
+
+func judgeConc(c *Ctx, line string, o concOut) {
+	c.Eval(line, true)
+	if o.parked {
+		c.Count("conc-writer-parked-inside-message")
+	} else {
+		c.Count("conc-writer-finished-before-gate")
+	}
+	if o.a == "hang" || o.b == "hang" {
+		hungCase = line
+		c.Find(Finding{Kind: "oracle", Class: "writer-does-not-terminate", Case: line, Impl: "no result after " + (callBudget + callLongBudget).String(), Spec: "the encoding"})
+		return
+	}
+	if o.a != o.aSeq {
+		c.Find(Finding{Kind: "oracle", Class: "concurrent-writers-interfere", Case: line, Impl: trunc(o.a, 300), Spec: trunc(o.aSeq, 300),
+			Detail: "the writer that was suspended inside a Write call while another message was serialised emitted other bytes than when it runs alone"})
+	}
+	if o.b != o.bSeq {
+		c.Find(Finding{Kind: "oracle", Class: "concurrent-writers-interfere", Case: line, Impl: trunc(o.b, 300), Spec: trunc(o.bSeq, 300),
+			Detail: "the message written while another writer was suspended differs from the same message written alone"})
+	}
+}
+
+// runConcurrent: pairs of generated messages, every suspension point of the first one sampled;
+// once on a single P (a sync.Pool hands a just-returned object to the next caller on the same
+// P), once on all
+func runConcurrent(c *Ctx, items []item) {
+	var msgs []*wmsg
+	for _, it := range items {
+		if it.msg != nil && it.werr == "" && len(it.wire) > 0 && len(it.wire) < 3000 && (it.kind == "pkt" || len(it.msg.h) >= 1) {
+			msgs = append(msgs, it.msg)
+		}
+		if len(msgs) >= 4000 {
+			break
+		}
+	}
+	if len(msgs) < 2 {
+		return
+	}
+	n := c.Budget(600, 6000)
+	type job struct {
+		a, b *wmsg
+		gate int
+	}
+	jobs := make([]job, 0, n)
+	for i := 0; i < n; i++ {
+		a, b := msgs[c.Rng.Intn(len(msgs))], msgs[c.Rng.Intn(len(msgs))]
+		if len(b.h) > len(a.h) && c.Rng.Chance(70) {
+			a, b = b, a
+		}
+		// Write calls of a message: 4 or 5 for the first line, 4 per header line, the blank line, the body
+		gate := c.Rng.Intn(6 + 4*len(a.h) + 2)
+		if a.kind == "pkt" {
+			gate = c.Rng.Intn(3)
+		}
+		jobs = append(jobs, job{a, b, gate})
+	}
+	half := len(jobs) / 2
+	old := runtime.GOMAXPROCS(1)
+	for _, j := range jobs[:half] {
+		judgeConc(c, concLine(j.a, j.b, j.gate), runConc(j.a, j.b, j.gate))
+		if hungCase != "" {
+			break
+		}
+	}
+	runtime.GOMAXPROCS(old)
+	for _, j := range jobs[half:] {
+		if hungCase != "" {
+			break
+		}
+		judgeConc(c, concLine(j.a, j.b, j.gate), runConc(j.a, j.b, j.gate))
+	}
 }
 
 // ---------------------------------------------------------------- negative streams
@@ -979,6 +1220,15 @@ func runRound(c *Ctx, round int) {
 			continue
 		}
 		switch {
+		case f[1] == "conc" && len(f) == 5:
+			gate, _ := strconv.Atoi(f[2])
+			if a, b := parseWmsg(f[3]), parseWmsg(f[4]); a != nil && b != nil {
+				// on one P and on all of them
+				old := runtime.GOMAXPROCS(1)
+				judgeConc(c, l, runConc(a, b, gate))
+				runtime.GOMAXPROCS(old)
+				judgeConc(c, l, runConc(a, b, gate))
+			}
 		case f[1] == "recv" && len(f) == 6:
 			cases = append(cases, rcase{kind: "recv", d: parseDelivery(f[2]), chans: parseIntsCSV(f[3]), stream: Unhx(f[5]), restWant: -1, tag: "corpus"})
 		case f[1] == "read" && len(f) >= 5:
@@ -1119,6 +1369,13 @@ func runRound(c *Ctx, round int) {
 		}
 	}
 
+	// ---- writers running concurrently (implementation only: compared with the same writer running alone)
+	if c.Replay == "" {
+		runConcurrent(c, items)
+		if hungCase != "" {
+			return
+		}
+	}
 	// ---- driver: writers/spec first
 	wouts := c.Drive(wops)
 	// ---- build read ops, resolve URL tables
